@@ -92,7 +92,7 @@ pub fn run_c15(tier: Tier, seed: u64) -> i32 {
     s.regress::<Scenario, _>("world", &case);
     s.enumerate("exhaustive-small-scope", "world", c15_exhaustive(tier.pick(4, 5)), &case);
     s.extra.insert("exhaustive_small_scope".into(), json!(format!("1-2 pending parts x all sequences over 6 events (answer first/last RPC, first/last pending part completes/fails) up to length {} x recipient fate", tier.pick(4, 5))));
-    s.search("proptest", "world", tier.pick(400, 8000), c15_strategy, &case);
+    s.search("proptest", "world", tier.pick(1500, 8000), c15_strategy, &case);
     s.finish()
 }
 
@@ -183,6 +183,6 @@ pub fn run_c16(tier: Tier, seed: u64) -> i32 {
     let case = world_case("C16", nontrivial, classes);
     s.regress::<Scenario, _>("world", &case);
     s.enumerate("cartesian", "world", c16_cartesian(), &case);
-    s.search("proptest", "world", tier.pick(400, 8000), c16_strategy, &case);
+    s.search("proptest", "world", tier.pick(1500, 8000), c16_strategy, &case);
     s.finish()
 }
